@@ -25,7 +25,21 @@ PROPERTIES = {
             "the program name passed to the two-argument constructor is a NUL-terminated C string (or nullptr)",
             "operator new does not fail (no exception-safety claim for a throwing allocation)",
         ],
-    }
+    },
+    # C04 for the argv array built from a string (arg_string_2_array.cpp is one of C04's anchored files): allocation
+    # size and matching deallocation of every word and of the program-name copy (both constructors), under ASan
+    # (heap-buffer-overflow, alloc-dealloc-mismatch, double free) — served besides the progargs and containers plugins
+    "C04": {
+        "lean_module": "CelmaVerif.Props.C07",
+        "kind": "relational",
+        "trusted": [
+            "hand-written model CelmaVerif/Model/ArgString.lean of copyArguments() and the two ArgString2Array "
+            "constructors (checked writes into exact-size blocks: C07_argv_safe1/2, C07_argv_alloc_needed); tied by the "
+            "correspondence run of harness/arg_string.cpp (construction AND destruction of the real object per line, "
+            "ASan+UBSan)",
+        ],
+        "assumptions": ["operator new does not fail", "the program name is a NUL-terminated C string or nullptr"],
+    },
 }
 
 RULE = ("one evaluation = one `as split`/`as split2` line run on the real ArgString2Array (ASan/UBSan) and on the Lean model; "
